@@ -52,6 +52,9 @@ const (
 	BPanicTypedNilError
 	BPanicErrorIsPanics
 	NumBehaviours
+	// BHelperPanicThenFailNow is not among the behaviours drawn at random: the helper goroutine it leaves behind uses the
+	// handle with no ordering against the end of the iteration (the program's own race), so it runs in the plain flavour only
+	BHelperPanicThenFailNow = NumBehaviours
 )
 
 // OtherHandle, when set, is the handle the BOther* behaviours act on (typically the one captured in setup);
@@ -65,7 +68,7 @@ var BehaviourNames = []string{"pass", "Fail", "FailNow", "Error", "Errorf", "Fat
 	"panic(\"\")", "panic-in-helper-goroutine-guarded-by-CheckResults", "two-guarded-helpers-sharing-one-done-channel",
 	"panic(value-whose-String-panics)", "FailNow-in-helper-goroutine-guarded-by-CheckResults",
 	"Logger().Panic", "FailNow-recovered-by-the-function-itself", "panic-under-the-function's-own-CheckResults",
-	"panic(typed-nil-error)", "panic(error-whose-Is-panics)"}
+	"panic(typed-nil-error)", "panic(error-whose-Is-panics)", "guarded-helper-panics-then-the-function-stops-without-waiting-for-it"}
 
 // Stops reports whether the behaviour ends the function at that point.
 func Stops(kind int) bool {
@@ -243,6 +246,16 @@ func Behave(t *f1testing.T, kind int) {
 		if err := typedNil(); err != nil {
 			panic(err)
 		}
+	case BHelperPanicThenFailNow:
+		// fail fast: a guarded helper goroutine panics, the function notices something is wrong and stops at once without
+		// waiting for the helper's completion signal (the helper stays parked on its signal: the program's own leak)
+		done := make(chan struct{})
+		go func() {
+			defer f1testing.CheckResults(t, done)
+			panic("planned panic in a guarded helper goroutine")
+		}()
+		time.Sleep(3 * time.Millisecond)
+		t.FailNow()
 	case BPanicErrorIsPanics:
 		panic(&isPanicsErr{})
 	case BOtherRequire:
